@@ -20,6 +20,8 @@ import SameVerif.Model.Builder
 import SameVerif.Model.App
 import SameVerif.Spec.OracleApp
 import Driver.Util
+import Driver.Dsp
+import Driver.FullRx
 /-
   samemodel: the executable side of the correspondence check.
   One request per input line, one answer per output line.
@@ -735,6 +737,20 @@ def handleSpec (name : String) (ins ans : List String) : String :=
       else if startsWith b litNN then verdict (ans == ["eom"]) "NN prefix must be EndOfMessage"
       else verdict (ans == ["err:UnrecognizedPrefix"]) "other prefixes must be UnrecognizedPrefix"
     | _, _, _ => "bad-op"
+  | "spec.c16.sigs", [_] =>
+    -- answer: `Name:num:code:display;` x 6, then the 6 x 6 comparison matrix (row-major, '<' '=' '>')
+    match ans with
+    | [table, matrix] =>
+      let rows := (table.splitOn ";").filter (· != "")
+      let names := rows.map (fun r => (r.splitOn ":").getD 0 "")
+      let nums := rows.map (fun r => ((r.splitOn ":").getD 1 "").toNat?)
+      if names != ["Test", "Statement", "Emergency", "Watch", "Warning", "Unknown"] then "FAIL significance levels are not the six documented ones in the stated order"
+      else if nums != [some 0, some 1, some 2, some 3, some 4, some 5] then "FAIL numeric forms are not 0..5 in the stated order"
+      else
+        let expected := String.ofList ((List.range 6).flatMap (fun i => (List.range 6).map (fun j =>
+          if i < j then '<' else if i == j then '=' else '>')))
+        verdict (matrix == expected) s!"comparing significance levels disagrees with comparing their numeric forms: {matrix} (expected {expected})"
+    | _ => "FAIL unparsable"
   | "spec.c16.evt", [b] =>
     match unhex b, ans with
     | some b, [phen, sig, num, test, unrec, disp, _brief, _sc] =>
@@ -980,6 +996,8 @@ def handleSpec (name : String) (ins ans : List String) : String :=
               | .eom => some "child spawned for an EndOfMessage"))
       | _, _ => "FAIL unparsable"
     | _, _, _ => "FAIL unparsable"
+  | "spec.c12.wait", [_label] =>
+    verdict (ans == ["ok"]) s!"samedec did not wait for the child before continuing: {" ".intercalate ans}"
   | "spec.c17.opts", [_opts] =>
     match ans with
     | [exit, printed, expected] =>
@@ -1023,7 +1041,7 @@ def handleSpec (name : String) (ins ans : List String) : String :=
       verdict ((if ans.isEmpty then [""] else ans) == [rle ((Spec.specStates pb ib bs).map showLink)])
         "link states are not those of the framing specification (burst must start at the first in-budget prefix window, keep bytes in order, end at the first over-budget invalid byte or the length cap; no prefix within 22 bytes: no burst)"
     | _, _, _ => "bad-op"
-  | _, _ => "bad-op"
+  | _, _ => (handleDspSpec name ins ans).getD "bad-op"
 
 def handleOp (args : List String) : String :=
   match args with
@@ -1171,7 +1189,7 @@ def handleOp (args : List String) : String :=
         s!"{x.name} code={hexOf (natsToBytes x.code)} disp={hexOf (natsToBytes x.display)}"
       else "not-utf8"
     | _, _ => "bad-op"
-  | _ => "bad-op"
+  | _ => (handleDspOp args).getD "bad-op"
 
 def handle (args : List String) : String :=
   match args with
@@ -1233,6 +1251,12 @@ partial def loop (h : IO.FS.Stream) (out : IO.FS.Stream) (st : DState) : IO Unit
   let line ← h.getLine
   if line.isEmpty then return ()
   let args := (line.trimAscii.toString.splitOn " ").filter (· != "")
+  if args.head? == some "rx.full" then
+    -- the one request that reads a file (the audio of a whole case)
+    let ans ← (fullRxOp args.tail).toBaseIO
+    out.putStrLn (match ans with | .ok a => a | .error e => s!"io-error {e}")
+    loop h out st
+  else
   let (st', ans) := handleSt st args
   out.putStrLn ans
   loop h out st'
